@@ -47,7 +47,7 @@ def run_c14(tier):
     with open(cp, 'w') as f:
         for r in range(reps):
             for c in cases:
-                f.write(json.dumps({'id': 'prg-%d' % n, 'seed': seed * 1000003 + n, 'hist': c['hist']}) + '\n')
+                f.write(json.dumps({'id': 'prg-%d' % n, 'seed': vlib.jseed(seed, n), 'hist': c['hist']}) + '\n')
                 n += 1
     op = os.path.join(vlib.subdir('results'), 'prg.ndjson')
     vlib.run([vh, 'prg-stream', '--in', cp, '--out', op, '--seed', str(seed)], check=True)
